@@ -217,7 +217,7 @@ Proof.
   intros Hz. unfold npoly, dftN. apply sumf_ext; intros k _. rewrite Hz, inv_tw, pow_tw. reflexivity.
 Qed.
 
-Variables (x : list F) (P K : nat) (A z : nat -> F) (bin : nat -> Z) (S : list F) (Vh : list (list F)) (ns : nat).
+Variables (x : list F) (P K : nat) (A z : nat -> F) (bin : nat -> Z) (S : list F) (Vh : list (list F)) (ns : nat) (eps : F).
 Hypothesis Hx : forall n, (n < length x)%nat -> nthF x n = expsig K A z n.            (* x_n = sum_i A_i z_i^n *)
 Hypothesis Hgrid : forall i, (i < K)%nat -> z i = tw (- bin i)%Z.                      (* z_i = exp(+2 pi i bin_i / NFFT) *)
 Hypothesis HK : (K <= np_of (length x) P)%nat.
@@ -238,7 +238,7 @@ Proof.
 Qed.
 (* MUSIC and EV (any weights): the denominator is zero at every true bin, and at every bin congruent to it mod NFFT *)
 Theorem denominator_vanishes meth i (c : Z) : (i < K)%nat ->
-  dform meth tw P S Vh ns (bin i + c * Z.of_nat NFFT)%Z = 0.
+  dform meth eps tw P S Vh ns (bin i + c * Z.of_nat NFFT)%Z = 0.
 Proof.
   intros Hi. rewrite (dform_periodic tw NFFT Hpos). unfold dform. apply sumf_zero_ext; intros t Ht.
   rewrite noise_projection_vanishes by (try exact Hi; lia). unfold nrm2. ring.
@@ -247,37 +247,47 @@ End Vanish.
 
 (* ---------------- positivity ---------------- *)
 Section Positive.
-Variables (tw : Z -> F) (meth : method_arg) (P : nat) (S : list F) (Vh : list (list F)) (ns : nat).
-(* MUSIC: weights 1; EV: weights 1/S_I, positive as soon as the noise singular values are positive *)
-Hypothesis Hw : meth = MEv -> forall I, (ns <= I)%nat -> (I < P)%nat -> pos (nthF S I).
+Variables (tw : Z -> F) (meth : method_arg) (eps : F) (P : nat) (S : list F) (Vh : list (list F)) (ns : nat).
+(* MUSIC: weights 1; EV: weights 1/max(S_I, eps*S_0): positive as soon as eps > 0, S_0 > 0 and the noise singular values are
+   real and non-negative — they may be exactly 0 (D22) *)
+Hypothesis Hw : meth = MEv -> pos eps /\ pos (nthF S 0) /\ forall I, (ns <= I)%nat -> (I < P)%nat -> nonneg (nthF S I).
 
-Lemma weight_pos I : (ns <= I)%nat -> (I < P)%nat -> pos (weight meth S I).
+Lemma fmax2_pos a b : conj a = a -> pos b -> pos (fmax2 a b).
+Proof.
+  intros Ha Hb. unfold fmax2, gtb. destruct (le0 (b - a)) eqn:E; cbn [negb]; [|exact Hb].
+  assert (Hr : conj (b - a) = b - a) by (rewrite conj_sub, Ha, (pos_real b Hb); reflexivity).
+  apply (le0_spec _ Hr) in E.
+  destruct (pos_add_nonneg b (- (b - a)) Hb E) as [H1 H2].
+  split; [apply (nonneg_eq (b + - (b - a))); [ring|exact H1]|]. intros E0. apply H2. rewrite <- E0. ring.
+Qed.
+Lemma weight_pos I : (ns <= I)%nat -> (I < P)%nat -> pos (weight meth eps S I).
 Proof.
   intros H1 H2. unfold weight. destruct meth eqn:E; try apply pos_1.
-  apply pos_div; [apply pos_1|apply Hw; auto].
+  destruct (Hw eq_refl) as (He & H0 & Hn).
+  apply pos_div; [apply pos_1|]. unfold sfloor. apply fmax2_pos; [apply nn_real, Hn; assumption|apply pos_mul; assumption].
 Qed.
-Theorem dform_nonneg (b : Z) : nonneg (dform meth tw P S Vh ns b).
+Theorem dform_nonneg (b : Z) : nonneg (dform meth eps tw P S Vh ns b).
 Proof.
   unfold dform. apply nonneg_sumf; intros t Ht. apply nn_mul; [apply nn_nrm2|apply weight_pos; lia].
 Qed.
 (* the denominator is zero exactly when every noise vector is orthogonal to e(b) *)
 Theorem dform_zero_iff (b : Z) :
-  dform meth tw P S Vh ns b = 0 <-> forall I, (ns <= I)%nat -> (I < P)%nat -> dftN tw P (rsv Vh I) b = 0.
+  dform meth eps tw P S Vh ns b = 0 <-> forall I, (ns <= I)%nat -> (I < P)%nat -> dftN tw P (rsv Vh I) b = 0.
 Proof.
   unfold dform. split.
   - intros E I H1 H2.
-    pose proof (sumf_nonneg_zero (P - ns) (fun t => nrm2 (dftN tw P (rsv Vh (ns + t)) b) * weight meth S (ns + t))) as Hz.
+    pose proof (sumf_nonneg_zero (P - ns) (fun t => nrm2 (dftN tw P (rsv Vh (ns + t)) b) * weight meth eps S (ns + t))) as Hz.
     specialize (Hz ltac:(intros t Ht; apply nn_mul; [apply nn_nrm2|apply weight_pos; lia]) E (I - ns)%nat ltac:(lia)).
     cbv beta in Hz. replace (ns + (I - ns))%nat with I in Hz by lia.
-    apply nrm2_zero. apply (mul_cancel_l (weight meth S I)); [rewrite <- Hz; ring|apply weight_pos; assumption].
+    apply nrm2_zero. apply (mul_cancel_l (weight meth eps S I)); [rewrite <- Hz; ring|apply weight_pos; assumption].
   - intros H. apply sumf_zero_ext; intros t Ht. rewrite H by lia. unfold nrm2. ring.
 Qed.
 (* positive (hence finite in the reals) wherever the noise-subspace projection does not vanish *)
 Theorem pseudo_value_pos (b : Z) I : (ns <= I)%nat -> (I < P)%nat -> dftN tw P (rsv Vh I) b <> 0 ->
-  pos (dform meth tw P S Vh ns b) /\ pos (1 / dform meth tw P S Vh ns b).
+  pos (dform meth eps tw P S Vh ns b) /\ pos (1 / dform meth eps tw P S Vh ns b).
 Proof.
   intros H1 H2 Hne.
-  assert (Hp : pos (dform meth tw P S Vh ns b)).
+  assert (Hp : pos (dform meth eps tw P S Vh ns b)).
   { split; [apply dform_nonneg|]. intros E. apply Hne. apply (proj1 (dform_zero_iff b) E); assumption. }
   split; [exact Hp|]. apply pos_div; [apply pos_1|exact Hp].
 Qed.
@@ -285,8 +295,8 @@ End Positive.
 
 (* MUSIC with a unitary V: the denominator never exceeds P (so the pseudo-spectrum is at least 1/P wherever it is defined) *)
 Theorem music_den_le_P_thm (tw : Z -> F) (NFFT : nat) {T : Twiddle NFFT tw} (Hpos : (0 < NFFT)%nat)
-  FB rows P S Vh ns (b : Z) : svd_spec FB rows P S Vh -> (ns <= P)%nat ->
-  le (dform MMusic tw P S Vh ns b) (ofnat P).
+  FB rows P S Vh ns (eps : F) (b : Z) : svd_spec FB rows P S Vh -> (ns <= P)%nat ->
+  le (dform MMusic eps tw P S Vh ns b) (ofnat P).
 Proof.
   intros Hs Hns.
   assert (Hall : sumf P (fun I => nrm2 (dftN tw P (rsv Vh I) b)) = ofnat P).
@@ -330,44 +340,44 @@ Lemma scaled_length scale (l : list F) :
   length (match scale with Some c => map (fun a => a * c) l | None => l end) = length l.
 Proof. destruct scale; [apply map_length|reflexivity]. Qed.
 
-Variables (meth : method_arg) (nsig : option nsig_arg) (thr : option F) (crit : crit_arg) (amin : nat)
+Variables (meth : method_arg) (eps : F) (nsig : option nsig_arg) (thr : option F) (crit : crit_arg) (amin : nat)
           (x : list F) (P : nat) (S : list F) (Vh : list (list F)).
 Hypothesis Hrows : forall I, (I < P)%nat -> length (mrow Vh I) = P.
 
 (* eigen(): NFFT entries; entry j is the pseudo-spectrum at the centred bin j - NFFT//2 = Range.centerdc()[j] / df *)
 Theorem music_axis_eigen_thm psd ev :
-  eigen meth nsig thr crit amin tw NFFT x P S Vh = inr (psd, ev) ->
+  eigen meth eps nsig thr crit amin tw NFFT x P S Vh = inr (psd, ev) ->
   exists ns, eigen_nsig meth nsig thr crit amin (length x) P NFFT S = inr ns /\ ev = S /\ length psd = NFFT /\
-    forall j, (j < NFFT)%nat -> nthF psd j = 1 / dform meth tw P S Vh ns (centerdc_bin NFFT j).
+    forall j, (j < NFFT)%nat -> nthF psd j = 1 / dform meth eps tw P S Vh ns (centerdc_bin NFFT j).
 Proof.
   unfold eigen. destruct (eigen_nsig meth nsig thr crit amin (length x) P NFFT S) as [e|ns] eqn:E; [discriminate|].
   intros H; injection H as <- <-. exists ns.
   destruct (signal_space_choice_thm _ _ _ _ _ _ _ _ _ _ E) as (_ & _ & HP & _).
   split; [reflexivity|]. split; [reflexivity|]. split; [apply reorder_length, pseudo_length|].
-  intros j Hj. apply (nth_eigen_vector tw NFFT Hpos meth P S Vh Hrows ns j Hj HP).
+  intros j Hj. apply (nth_eigen_vector tw NFFT Hpos meth eps P S Vh Hrows ns j Hj HP).
 Qed.
 (* pmusic / pev on complex data (sides = 'twosided'): NFFT entries; entry j is the pseudo-spectrum at bin j = twosided()[j] / df *)
 Theorem music_axis_complex_thm scale psd ev :
-  pclass meth false scale nsig thr crit amin tw NFFT x P S Vh = inr (psd, ev) ->
+  pclass meth eps false scale nsig thr crit amin tw NFFT x P S Vh = inr (psd, ev) ->
   exists ns, eigen_nsig meth nsig thr crit amin (length x) P NFFT S = inr ns /\ ev = S /\ length psd = NFFT /\
-    forall j, (j < NFFT)%nat -> nthF psd j = scaled scale (1 / dform meth tw P S Vh ns (Z.of_nat j)).
+    forall j, (j < NFFT)%nat -> nthF psd j = scaled scale (1 / dform meth eps tw P S Vh ns (Z.of_nat j)).
 Proof.
   unfold pclass, eigen. destruct (eigen_nsig meth nsig thr crit amin (length x) P NFFT S) as [e|ns] eqn:E; [discriminate|].
   intros H; injection H as <- <-. exists ns.
   destruct (signal_space_choice_thm _ _ _ _ _ _ _ _ _ _ E) as (_ & _ & HP & _).
   split; [reflexivity|]. split; [reflexivity|]. unfold class_psd. split.
   - rewrite scaled_length, ifftshift_length. apply reorder_length, pseudo_length.
-  - intros j Hj. rewrite nth_scaled. f_equal. apply (nth_class_complex tw NFFT Hpos meth P S Vh Hrows ns j Hj HP).
+  - intros j Hj. rewrite nth_scaled. f_equal. apply (nth_class_complex tw NFFT Hpos meth eps P S Vh Hrows ns j Hj HP).
 Qed.
 (* pmusic / pev on real data (sides = 'onesided'): NFFT/2+1 entries for both parities of NFFT (= len(onesided()));
    entry j is twice the pseudo-spectrum at bin -j, which is the value at bin j = onesided()[j] / df when the singular vectors are real *)
 Theorem music_axis_real_thm scale psd ev :
-  pclass meth true scale nsig thr crit amin tw NFFT x P S Vh = inr (psd, ev) ->
+  pclass meth eps true scale nsig thr crit amin tw NFFT x P S Vh = inr (psd, ev) ->
   exists ns, eigen_nsig meth nsig thr crit amin (length x) P NFFT S = inr ns /\ ev = S /\ length psd = (NFFT / 2 + 1)%nat /\
     forall j, (j <= NFFT / 2)%nat ->
-      nthF psd j = scaled scale (1 / dform meth tw P S Vh ns (- Z.of_nat j)%Z * two)
+      nthF psd j = scaled scale (1 / dform meth eps tw P S Vh ns (- Z.of_nat j)%Z * two)
       /\ ((forall I m, conj (mat Vh I m) = mat Vh I m) ->
-          nthF psd j = scaled scale (1 / dform meth tw P S Vh ns (Z.of_nat j) * two)).
+          nthF psd j = scaled scale (1 / dform meth eps tw P S Vh ns (Z.of_nat j) * two)).
 Proof.
   unfold pclass, eigen. destruct (eigen_nsig meth nsig thr crit amin (length x) P NFFT S) as [e|ns] eqn:E; [discriminate|].
   intros H; injection H as <- <-. exists ns.
@@ -376,15 +386,15 @@ Proof.
   assert (Hh : (NFFT / 2 < NFFT)%nat) by (apply Nat.div_lt; lia).
   split.
   - rewrite scaled_length, rev_length, map_length, firstn_length, onesided_len.
-    rewrite (reorder_length NFFT _ (pseudo_length tw NFFT meth P S Vh ns)). lia.
+    rewrite (reorder_length NFFT _ (pseudo_length tw NFFT meth eps P S Vh ns)). lia.
   - intros j Hj.
     assert (E1 : nthF (match scale with Some c => map (fun a => a * c) (rev (map (fun a => a * two)
-                   (firstn (if Nat.even NFFT then NFFT / 2 + 1 else (NFFT + 1) / 2)%nat (eigen_reorder NFFT (pseudo meth tw NFFT P S Vh ns)))))
+                   (firstn (if Nat.even NFFT then NFFT / 2 + 1 else (NFFT + 1) / 2)%nat (eigen_reorder NFFT (pseudo meth eps tw NFFT P S Vh ns)))))
                    | None => rev (map (fun a => a * two)
-                   (firstn (if Nat.even NFFT then NFFT / 2 + 1 else (NFFT + 1) / 2)%nat (eigen_reorder NFFT (pseudo meth tw NFFT P S Vh ns)))) end) j
-                 = scaled scale (1 / dform meth tw P S Vh ns (- Z.of_nat j)%Z * two)).
-    { rewrite nth_scaled. f_equal. apply (nth_class_real tw NFFT Hpos meth P S Vh Hrows ns j Hj HP). }
-    split; [exact E1|]. intros Hreal. rewrite E1. rewrite (dform_even tw NFFT Hpos meth P S Vh ns (Z.of_nat j) Hreal). reflexivity.
+                   (firstn (if Nat.even NFFT then NFFT / 2 + 1 else (NFFT + 1) / 2)%nat (eigen_reorder NFFT (pseudo meth eps tw NFFT P S Vh ns)))) end) j
+                 = scaled scale (1 / dform meth eps tw P S Vh ns (- Z.of_nat j)%Z * two)).
+    { rewrite nth_scaled. f_equal. apply (nth_class_real tw NFFT Hpos meth eps P S Vh Hrows ns j Hj HP). }
+    split; [exact E1|]. intros Hreal. rewrite E1. rewrite (dform_even tw NFFT Hpos meth eps P S Vh ns (Z.of_nat j) Hreal). reflexivity.
 Qed.
 End ModelAxis.
 
@@ -399,25 +409,25 @@ Hypothesis Hpos : (0 < NFFT)%nat.
 (* noiseless sum of K on-grid exponentials, signal-subspace dimension set to K, (S, Vh) any SVD of the data matrix whose
    (K+1)-th singular value is 0: eigen() returns S, and every entry whose centred bin is a true bin (mod NFFT) is the
    reciprocal of a denominator that is exactly zero — for MUSIC and for EV *)
-Theorem eigen_resolves_thm meth crit amin (x : list F) (P K : nat) (A z : nat -> F) (bin : nat -> Z)
+Theorem eigen_resolves_thm meth eps crit amin (x : list F) (P K : nat) (A z : nat -> F) (bin : nat -> Z)
         (S : list F) (Vh : list (list F)) psd ev :
   (forall n, (n < length x)%nat -> nthF x n = expsig K A z n) ->
   (forall i, (i < K)%nat -> z i = tw (- bin i)%Z) ->
   (K <= np_of (length x) P)%nat -> distinct K z -> (forall i, (i < K)%nat -> A i <> 0) ->
   svd_spec (fb_matrix x P) (2 * np_of (length x) P) P S Vh -> nthF S K = 0 ->
-  eigen meth (Some (NInt (Z.of_nat K))) None crit amin tw NFFT x P S Vh = inr (psd, ev) ->
+  eigen meth eps (Some (NInt (Z.of_nat K))) None crit amin tw NFFT x P S Vh = inr (psd, ev) ->
   ev = S /\ length psd = NFFT /\ (K < P)%nat /\
   forall i j (c : Z), (i < K)%nat -> (j < NFFT)%nat -> centerdc_bin NFFT j = (bin i + c * Z.of_nat NFFT)%Z ->
-    nthF psd j = 1 / dform meth tw P S Vh K (centerdc_bin NFFT j) /\ dform meth tw P S Vh K (centerdc_bin NFFT j) = 0.
+    nthF psd j = 1 / dform meth eps tw P S Vh K (centerdc_bin NFFT j) /\ dform meth eps tw P S Vh K (centerdc_bin NFFT j) = 0.
 Proof.
   intros Hx Hgrid HK Hd HA Hs HSK He.
-  destruct (music_axis_eigen_thm tw NFFT Hpos meth _ _ crit amin x P S Vh (svd_shape _ _ _ _ _ Hs) psd ev He)
+  destruct (music_axis_eigen_thm tw NFFT Hpos meth eps _ _ crit amin x P S Vh (svd_shape _ _ _ _ _ Hs) psd ev He)
     as (ns & Ens & Hev & Hlen & Hnth).
   destruct (signal_space_choice_thm _ _ _ _ _ _ _ _ _ _ Ens) as (_ & _ & _ & Hc).
   cbn [choice_spec] in Hc. destruct Hc as (z0 & Hz0 & Hrange & Hns). injection Hz0 as <-. rewrite Nat2Z.id in Hns. subst ns.
   split; [exact Hev|]. split; [exact Hlen|]. split; [lia|].
   intros i j c Hi Hj Hbin. split; [apply Hnth; exact Hj|]. rewrite Hbin.
-  apply (denominator_vanishes tw NFFT Hpos x P K A z bin S Vh K Hx Hgrid HK Hd HA); [|exact Hi].
+  apply (denominator_vanishes tw NFFT Hpos x P K A z bin S Vh K eps Hx Hgrid HK Hd HA); [|exact Hi].
   intros I HI1 HI2. split; [apply (svd_gram _ _ _ _ _ Hs); exact HI2|].
   apply (zero_tail _ _ _ _ _ K Hs HSK); assumption.
 Qed.
